@@ -2357,7 +2357,8 @@ def _glom(target, spec, scope):
         scope.maps[0][CUR_ERROR] = e
         if NO_PYFRAME in scope.maps[1]:
             cur_scope = scope[UP]
-            while NO_PYFRAME in cur_scope.maps[0]:
+            # (a scope flattened by Spec.glom(scope=S) has no parent map to record into)
+            while NO_PYFRAME in cur_scope.maps[0] and len(cur_scope.maps) > 1:
                 cur_scope.maps[1][CHILD_ERRORS].append(cur_scope)
                 cur_scope.maps[0][CUR_ERROR] = e
                 cur_scope = cur_scope[UP]
